@@ -9,6 +9,10 @@ _sys.path.insert(0, _os.path.join(_os.path.dirname(_os.path.abspath(__file__)), 
 from borrow import borrow as _borrow
 
 HARNESSES = _borrow(__file__, "C01", ["meta_write_to_file"])
-FUNCTIONS = ["sqfs_meta_write_write_to_file (via harness/C01)"]
+# the default compressor is a function of the build, not of transient probe failures
+HARNESSES.append(dict(name="default_comp", file="default_comp.c", label="proved", timeout=300,
+                      unwind=10, fp={"destroy": "probe_destroy"},
+                      must_have=["C13.default_comp.function_of_build"]))
+FUNCTIONS = ["sqfs_meta_write_write_to_file (via harness/C01)", "compressor_get_default"]
 TRUSTED = []
 ASSUMPTIONS = []
